@@ -15,13 +15,14 @@ Quick: all registration sets x all offers (primary / additional / empty), every 
 {Accept,Retry,Reject,Ignore}^2 on three dial patterns, dispatch behind hooks and a retry.  Thorough: in addition TLC
 model-checks the full product and a seeded sample of it is run e2e.
 
-Mutation self-tests (recorded 2026-09-22, each from a diff under /var/tmp applied to /repo and undone):
- * handle_connection falls back to the first registered handler for an unknown ALPN and Endpoint::set_alpns is given
-   one extra protocol  -> not expressible without touching two places; instead:
- * `IncomingFilterOutcome::Retry` treated as Accept in the run loop (/var/tmp/c40-mut-retry.diff)
-   -> VIOLATION clause=filter_calls / handler_log (handler invoked after one unvalidated consultation);
- * `protocols.get(&alpn)` replaced by "first registered handler" (/var/tmp/c40-mut-first.diff)
-   -> VIOLATION clause=handler_log (handler p logged for negotiated q) .
+Mutation self-tests (2026-09-22).  Run in a private mirror (/var/tmp/rt-iso: `git archive HEAD` of /repo + a copy of
+/verif whose harness path-depends on the mirror) because a build took 5-25 min on the shared, heavily loaded machine
+and /repo must not stay mutated that long; diffs kept under /var/tmp, applied with `git apply`, undone with `-R`:
+ * /var/tmp/c40-mut-retry.diff — run loop treats `IncomingFilterOutcome::Retry` like Accept
+   -> VIOLATION clause=filter_calls (observed [false], specification [false, true]) on every Retry/* scenario;
+ * /var/tmp/c40-mut-first.diff — handle_connection takes the first registered handler instead of `protocols.get(&alpn)`
+   -> VIOLATION clause=handler_protocol / handler_log (handler p ran a connection negotiated for q);
+ * both undone -> exit 0, no finding.
 """
 import json
 
